@@ -204,6 +204,7 @@ theorem create_stores_float (db : Db) (q : Qty) (x : PyVal) (v : Rat) (hx : x.is
     | atom a => simp [create, internalCreate, fractionInternal, hv]
     | seq k l => simp [create, internalCreate, fractionInternal, hv]
     | rows k l => simp [create, internalCreate, fractionInternal, hv]
+    | nest k l => simp [create, internalCreate, fractionInternal, hv]
     | qty q' => simp [create, internalCreate, fractionInternal, hv]
 
 /-- **all Scalar forms build one object holding `float(a)`, for every kind of number `a`** (floats,
@@ -374,6 +375,78 @@ theorem rows_forms_equal {db : Db} {c u : Sym} {q : Qty} (f g : Option Rat) (k :
     obtain ⟨h0, _⟩ := form_without_category_agrees g (.fixed d) _ hc hc0 hq hv
     exact ⟨h0.trans hb, h1.trans hb, h2.trans hb, h4.trans hb,
       (hcw.2.2.2.2 d d' hl).trans hb, (hcw.2.2.2.1 d d').trans hb, hxe ▸ (eq_self_rows q k rows).2 d⟩
+
+/-- `o == o` is `True` as well for every Array/FixedArray whose value is a list or tuple of lists, or
+of lists and tuples mixed (`[[1.0, 2.0], [3.0, 4.5]]`, `([7.0],)`, `[[1.0], (2.0, 3.0)]`) -/
+theorem eq_self_nested (q : Qty) (k : SeqKind) (rows : List (Bool × List Atom)) :
+    Obj.eq ⟨q, .arr (.nest k rows)⟩ ⟨q, .arr (.nest k rows)⟩ = .ok true
+    ∧ (∀ d : Int, Obj.eq ⟨q, .fixed (.nest k rows) d⟩ ⟨q, .fixed (.nest k rows) d⟩ = .ok true) := by
+  constructor
+  · simp [Obj.eq, arrayEq, pyTuple, elemsEq_refl, pyEq_refl]
+  · intro d; simp [Obj.eq, arrayEq, pyTuple, elemsEq_refl, pyEq_refl]
+
+/-- **a row given as a list is not the row given as a tuple**: two Arrays on the same quantity whose
+values differ only in the kind of one row (`[[1.0, 2.0]]` against `[(1.0, 2.0)]`) compare unequal — an
+object that stored another container than the one it was given is another object -/
+theorem list_row_differs_from_tuple_row (q : Qty) (k k' : SeqKind) (r : List Atom)
+    (pre post : List (Bool × List Atom)) :
+    Obj.eq ⟨q, .arr (.nest k (pre ++ (true, r) :: post))⟩ ⟨q, .arr (.nest k' (pre ++ (false, r) :: post))⟩ = .ok false := by
+  have h : ∀ pre : List (Bool × List Atom),
+      elemsEq ((pre ++ (true, r) :: post).map rowElem) ((pre ++ (false, r) :: post).map rowElem) = false := by
+    intro pre
+    induction pre with
+    | nil => simp [elemsEq, rowElem, elemEq]
+    | cons a as ih => simp only [List.cons_append, List.map_cons, elemsEq, ih, Bool.and_false]
+  simp only [Obj.eq, arrayEq, pyTuple, h pre, Bool.false_and]
+
+/-- **the Array and FixedArray forms hold exactly the container they were given, also a list (or
+tuple) of LISTS or of lists and tuples mixed**: every `__init__` form and `CreateWithQuantity` build the
+one object whose value is that very container (row kinds included), whatever the number of rows and
+their sizes; the FixedArray dimension is the number of rows -/
+theorem nested_forms_equal {db : Db} {c u : Sym} {q : Qty} (f g : Option Rat) (k : SeqKind)
+    (rows : List (Bool × List Atom)) (kw : Bool) (d' : Int)
+    (hc : getDefaultCategory db u = .ok (some c)) (hc0 : c ≠ 0)
+    (hq : newQuantity db (.str c none) u = .ok q) :
+    (construct db .array (.nest k rows) (.atom (.str u g)) .none = .ok ⟨q, .arr (.nest k rows)⟩
+      ∧ construct db .array (.nest k rows) (.atom (.str u g)) (.str c f) = .ok ⟨q, .arr (.nest k rows)⟩
+      ∧ construct db .array (.atom (.str c f)) (.nest k rows) (.str u g) = .ok ⟨q, .arr (.nest k rows)⟩
+      ∧ construct db .array (.qty q) (.nest k rows) .none = .ok ⟨q, .arr (.nest k rows)⟩
+      ∧ createWithQuantity db .array q (.nest k rows) kw none = .ok ⟨q, .arr (.nest k rows)⟩
+      ∧ Obj.eq ⟨q, .arr (.nest k rows)⟩ ⟨q, .arr (.nest k rows)⟩ = .ok true)
+    ∧ (2 ≤ rows.length →
+      construct db (.fixed rows.length) (.nest k rows) (.atom (.str u g)) .none = .ok ⟨q, .fixed (.nest k rows) rows.length⟩
+      ∧ construct db (.fixed rows.length) (.nest k rows) (.atom (.str u g)) (.str c f)
+          = .ok ⟨q, .fixed (.nest k rows) rows.length⟩
+      ∧ construct db (.fixed rows.length) (.atom (.str c f)) (.nest k rows) (.str u g)
+          = .ok ⟨q, .fixed (.nest k rows) rows.length⟩
+      ∧ construct db (.fixed rows.length) (.qty q) (.nest k rows) .none = .ok ⟨q, .fixed (.nest k rows) rows.length⟩
+      ∧ createWithQuantity db (.fixed d') q (.nest k rows) kw none = .ok ⟨q, .fixed (.nest k rows) rows.length⟩
+      ∧ createWithQuantity db (.fixed d') q (.nest k rows) kw (some rows.length)
+          = .ok ⟨q, .fixed (.nest k rows) rows.length⟩
+      ∧ Obj.eq ⟨q, .fixed (.nest k rows) rows.length⟩ ⟨q, .fixed (.nest k rows) rows.length⟩ = .ok true) := by
+  have hx : ∃ x : PyVal, x = .nest k rows := ⟨_, rfl⟩
+  obtain ⟨x, hxe⟩ := hx
+  rw [← hxe]
+  have hn : x.isNone = false := by rw [hxe]; rfl
+  have hcw := createWithQuantity_agrees db q x kw hn
+  constructor
+  · have hv : x.isValueFor .array = true := by rw [hxe]; cases k <;> rfl
+    have hb := (create_builds db q).2.2.2.1 x hn
+    obtain ⟨h1, h2, _, h4⟩ := forms_with_category_agree f g .array _ hq hv
+    obtain ⟨h0, _⟩ := form_without_category_agrees g .array _ hc hc0 hq hv
+    exact ⟨h0.trans hb, h1.trans hb, h2.trans hb, h4.trans hb, (hcw.2.2.1).trans hb, hxe ▸ (eq_self_nested q k rows).1⟩
+  · intro hd
+    have hd' : ∃ d : Int, d = rows.length := ⟨_, rfl⟩
+    obtain ⟨d, hde⟩ := hd'
+    rw [← hde]
+    have hv : x.isValueFor (.fixed d) = true := by rw [hxe]; cases k <;> rfl
+    have hl : pyLen x = .ok d := by rw [hxe, hde]; rfl
+    have hd2 : (2 : Int) ≤ d := by omega
+    have hb := (create_builds db q).2.2.2.2 x d hn hd2 hl
+    obtain ⟨h1, h2, _, h4⟩ := forms_with_category_agree f g (.fixed d) _ hq hv
+    obtain ⟨h0, _⟩ := form_without_category_agrees g (.fixed d) _ hc hc0 hq hv
+    exact ⟨h0.trans hb, h1.trans hb, h2.trans hb, h4.trans hb,
+      (hcw.2.2.2.2 d d' hl).trans hb, (hcw.2.2.2.1 d d').trans hb, hxe ▸ (eq_self_nested q k rows).2 d⟩
 
 /-! ### the category alone -/
 
@@ -970,6 +1043,55 @@ theorem default_category_after_unit_registration (lg : List (Sym × Sym)) (r r' 
         have hc' : (dbOf lg ⟨Reg.tlModify (· ++ [info]) (Reg.tlSetDefault r.types qt) qt,
             r.index ++ [(u, info)], r.cats⟩).catByName qt = some ci := hc
         simp [getDefaultCategory, defaultCategoryRow, hu', rowDefaultCategory, hinfo.2.2, hinfo.1, hc']
+/-- **the object built from a category alone (or from a quantity alone) does not depend on the history**:
+after ANY history — registrations, questions, constructions, and in-place operations (`append`, `extend`,
+item assignment, in-place numpy arithmetic) on the containers that earlier objects handed out — every
+construction call gives what it gives on the database built by the registrations of that history alone.
+In particular `Cls(c)` and `Cls(q)` are pure functions of (registry, class, category/quantity): an
+earlier object's values never show up in a later one. -/
+theorem categoryOnly_history_independent (lg : List (Sym × Sym)) (r : Reg.Registry) (ops : List HOp)
+    (cls : Cls) (c : Atom) (q : Qty) (f : Call) :
+    construct (dbOf lg (hrun lg r ops)) cls (.atom c) .none .none
+      = construct (dbOf lg (Reg.run lg r (regsOf ops))) cls (.atom c) .none .none
+    ∧ construct (dbOf lg (hrun lg r ops)) cls (.qty q) .none .none
+      = construct (dbOf lg (Reg.run lg r (regsOf ops))) cls (.qty q) .none .none
+    ∧ runCall (dbOf lg (hrun lg r ops)) f = runCall (dbOf lg (Reg.run lg r (regsOf ops))) f := by
+  rw [hrun_eq_run]; exact ⟨rfl, rfl, rfl⟩
+
+/-- **operating on a handed-out container changes that object only**: the step leaves the registry
+alone, reports the object as built from the registry as it is, and two histories that differ only in
+such steps (same registrations) answer every later step alike -/
+theorem mutation_touches_only_its_object (lg : List (Sym × Sym)) (r : Reg.Registry) (c : Call) (ms : List Mut)
+    (ops : List HOp) (q : HOp) :
+    (hstep lg r (.mut c ms)).1 = r
+    ∧ (∃ after, (hstep lg r (.mut c ms)).2 = .mut (runCall (dbOf lg r) c) after)
+    ∧ (hstep lg (hrun lg r (ops ++ [.mut c ms])) q).2 = (hstep lg (hrun lg r ops) q).2 := by
+  refine ⟨rfl, ⟨_, rfl⟩, ?_⟩
+  rw [hrun_append]; rfl
+
+/-- **the category alone equals (default value, default unit, category) in every reachable state**:
+after ANY history (mutations of handed-out containers included), for a category `c` the registry
+knows and whose default unit it accepts, `Array(c)` is `Array([], default_unit, c)` — the EMPTY list —
+and `FixedArray(d, c)` is `FixedArray(d, [0.0] * d, default_unit, c)`, and they compare equal -/
+theorem category_only_eq_default_in_every_reachable_state (lg : List (Sym × Sym)) (r : Reg.Registry)
+    (ops : List HOp) {c : Sym} {ci : CatRow} {q : Qty} (f g : Option Rat) (d : Int) :
+    let db := dbOf lg (Reg.run lg r (regsOf ops))
+    db.catByName c = some ci → newQuantity db (.str c none) ci.defaultUnit = .ok q →
+    let dbh := dbOf lg (hrun lg r ops)
+    construct dbh .array (.atom (.str c f)) .none .none = .ok ⟨q, .arr (.seq .list [])⟩
+    ∧ construct dbh .array (.seq .list []) (.atom (.str ci.defaultUnit g)) (.str c f) = .ok ⟨q, .arr (.seq .list [])⟩
+    ∧ (2 ≤ d →
+        construct dbh (.fixed d) (.atom (.str c f)) .none .none
+          = .ok ⟨q, .fixed (.seq .list (List.replicate d.toNat (.num 0 false))) d⟩
+        ∧ construct dbh (.fixed d) (.seq .list (List.replicate d.toNat (.num 0 false)))
+            (.atom (.str ci.defaultUnit g)) (.str c f)
+          = .ok ⟨q, .fixed (.seq .list (List.replicate d.toNat (.num 0 false))) d⟩) := by
+  intro db hci hq dbh
+  have : dbh = db := by simp only [dbh, db, hrun_eq_run]
+  rw [this]
+  have h := category_only_eq_default (db := db) f g hci hq
+  exact ⟨h.2.2.1.1, h.2.2.1.2, fun hd => ⟨(h.2.2.2 d hd).1, (h.2.2.2 d hd).2⟩⟩
+
 /-- **the forms agree in every reachable state**: after ANY history of registrations, questions and
 (failed) constructions on a private database, if the registry now gives the unit `u` the default
 category `c` and `Quantity(c, u)` exists, all Scalar forms build one object for every number (the
